@@ -96,6 +96,24 @@ class Script:
     def reads(self, m, p=0):
         self.lines.append("RT %d %d" % (p, m))
 
+    def node(self, k, c, p=0):
+        self.lines.append("N %d %d %d" % (p, k, c))
+
+    def vmake(self, h, k, route, c, p=0):
+        self.lines.append("VN %d %s %d %d %d" % (p, route, h, k, c))
+
+    def vderive(self, h, frm, route, k, p=0):
+        self.lines.append("VD %d %s %d %d %d" % (p, route, h, frm, k))
+
+    def vdrop(self, h, p=0):
+        self.lines.append("VX %d %d" % (p, h))
+
+    def vget(self, h, p=0):
+        self.lines.append("VG %d %d" % (p, h))
+
+    def vcall(self, m, hs, p=0):
+        self.lines.append("VC %d %d %d %s" % (p, m, len(hs), " ".join(map(str, hs))))
+
     def observe_all(self, p=0):
         self.lines.append("A %d" % p)
 
